@@ -113,6 +113,14 @@ impl<'c> Problem<'c> {
 }
 
 fn read_obs(s: &SATSolver, n: usize, prev: Option<&Obs>) -> Result<Obs, String> {
+    // the public observers are calls into the library too: a panic there is a verdict
+    match guarded(|| read_obs_inner(s, n, prev)) {
+        Ok(r) => r,
+        Err(p) => Err(format!("a public observer (difference_iter / is_set / cur_hash / is_sat) panicked: {}", p)),
+    }
+}
+
+fn read_obs_inner(s: &SATSolver, n: usize, prev: Option<&Obs>) -> Result<Obs, String> {
     let mut dt = 0u8;
     let mut df = 0u8;
     for l in s.difference_iter() {
@@ -395,7 +403,12 @@ pub fn explore_cnf(clauses: &[Clause], n: usize, max_open: usize, state_cap: u64
     let nv = to_cnf(clauses).num_vars();
     let mut seen: HashSet<Vec<u8>> = HashSet::new();
     let mut hash_to_res: HashMap<u128, Vec<Vec<(usize, bool)>>> = HashMap::new();
-    seen.insert(snapshot_key(&s0));
+    {
+        let mut k0 = snapshot_key(&s0);
+        k0.push(0xFA);
+        k0.push(t0.levels.len() as u8);
+        seen.insert(k0);
+    }
     r.states = 1;
     {
         let top = t0.levels.last().unwrap();
@@ -456,7 +469,13 @@ pub fn explore_cnf(clauses: &[Clause], n: usize, max_open: usize, state_cap: u64
                         hash_to_res.insert(top.hash, res_now);
                     }
                 }
-                if seen.insert(snapshot_key(&s2)) {
+                // the key is the solver's hidden state plus the reference model's own stack
+                // depth: if the two ever get out of step (a decide that pushes nothing, a pop
+                // that pops twice) the pair is a new state and its successors are explored
+                let mut key = snapshot_key(&s2);
+                key.push(0xFA);
+                key.push(t2.levels.len() as u8);
+                if seen.insert(key) {
                     r.states += 1;
                     if top.sat {
                         r.sat_states += 1;
